@@ -210,6 +210,13 @@ def exec_sut(sut, op, refs, model):
             return canon_report(t.index_batch_crawl(data, yield_frequency=op.get("yf", 50)))
         if k == "create_we":
             return canon_report(t.create_webentity([arg(p) for p in op["prefixes"]]))
+        if k == "create_many":
+            acc = []
+            base = dec(op["base"])
+            for i_ in range(op["count"]):
+                r_ = t.create_webentity([base + b"p:%05d|" % i_])
+                acc.extend(sorted((k_, tuple(sorted(v_))) for k_, v_ in r_.created_webentities.items()))
+            return ("report", 0, tuple(acc))
         if k == "delete_we":
             return ("ok", t.delete_webentity(refs["weid"], refs["prefixes"]))
         if k == "add_prefix":
@@ -255,6 +262,13 @@ def exec_model(model, op, refs, observed):
             return canon_model_report(model.batch([(dec(s), [dec(x) for x in ts]) for s, ts in op["data"]])), None
         if k == "create_we":
             return canon_model_report(model.create_webentity([dec(p) for p in op["prefixes"]])), None
+        if k == "create_many":
+            acc = []
+            base = dec(op["base"])
+            for i_ in range(op["count"]):
+                r_ = model.create_webentity([base + b"p:%05d|" % i_])
+                acc.extend(sorted((k_, tuple(sorted(v_))) for k_, v_ in r_["we"].items()))
+            return ("report", 0, tuple(acc)), None
         if k == "delete_we":
             return ("ok", model.delete_webentity(refs["weid"], refs["prefixes"])), None
         if k == "add_prefix":
